@@ -232,12 +232,13 @@ theorem return_through_frame (env : Env) (fuel : Nat) (f : Frame) (body : List B
   simp only [framed, withFrame, h, joinRes]
 
 /-- **dtml-return inside a dtml-raise body** ends the call too (it is not turned into an error) -/
-theorem return_through_raise (env : Env) (fuel : Nat) (cls : Text) (ce : Option Expr) (body : List Blk)
-    (st st1 : St) (v : Val)
-    (h : renderJoined env fuel body (raiseClass env fuel cls ce st).2 = (.ret v, st1)) :
+theorem return_through_raise (env : Env) (fuel : Nat) (cls c : Text) (ce : Option Expr) (body : List Blk)
+    (st st0 st1 : St) (v : Val)
+    (hc : raiseClass env fuel cls ce st = (some c, st0))
+    (h : renderJoined env fuel body st0 = (.ret v, st1)) :
     renderBlk env (fuel + 1) (.raise_ cls ce body) st = (.ret v, st1) := by
   unfold renderBlk
-  simp only [h]
+  simp only [hc, h]
 
 /-- **The enclosing template call returns the value**, of whatever type -/
 theorem return_ends_call (env : Env) (fuel : Nat) (t : Template) (c : CallArgs) (st1 : St) (v : Val)
@@ -259,23 +260,38 @@ theorem return_ends_subtemplate (env : Env) (fuel id : Nat) (t : Template) (st s
 /-! #### try / finally -/
 
 /-- **The finally body is rendered exactly once, after the body, on every path**: whatever the
-body's outcome (output, exception, return), the state after the tag is the state after
+body's outcome — output, exception or return — the state after the tag is the state after
 rendering the body and then the finally body once. -/
-theorem finally_exactly_once (env : Env) (fuel : Nat) (body fin : List Blk) (st : St) :
+theorem finally_exactly_once (env : Env) (fuel : Nat) (body fin : List Blk) (st : St)
+    (hb : (renderJoined env fuel body st).1 ≠ .oom) :
     (renderBlk env (fuel + 1) (.tryFin body fin) st).2 =
       (renderJoined env fuel fin (renderJoined env fuel body st).2).2 := by
   unfold renderBlk
   simp only
-  generalize renderJoined env fuel body st = r1
+  generalize renderJoined env fuel body st = r1 at hb ⊢
   obtain ⟨r, st1⟩ := r1
-  simp only
-  generalize renderJoined env fuel fin st1 = r2
-  obtain ⟨q, st2⟩ := r2
-  cases q with
-  | ok q => cases r <;> simp
-  | raise e => rfl
-  | ret v => rfl
-  | oom => rfl
+  have key : (match renderJoined env fuel fin st1 with
+      | (.ok q, st2) =>
+        (match r with
+         | .ok p => join2 env p q st2
+         | .raise e => (.raise e, st2)
+         | .ret v => (.ret v, st2)
+         | .oom => (.oom, st2))
+      | (.raise e, st2) => (.raise e, st2)
+      | (.ret v, st2) => (.ret v, st2)
+      | (.oom, st2) => (.oom, st2)).2 = (renderJoined env fuel fin st1).2 := by
+    generalize renderJoined env fuel fin st1 = r2
+    obtain ⟨q, st2⟩ := r2
+    cases q with
+    | ok q => cases r <;> simp [join2_snd]
+    | raise e => rfl
+    | ret v => rfl
+    | oom => rfl
+  cases r with
+  | oom => exact (hb rfl).elim
+  | ok p => exact key
+  | raise e => exact key
+  | ret v => exact key
 where
   join2_snd (env : Env) (p q : Piece) (st : St) : (join2 env p q st).2 = st := by
     unfold join2; split <;> rfl
@@ -306,37 +322,42 @@ theorem finally_appended (env : Env) (fuel : Nat) (body fin : List Blk) (st st1 
 
 /-- an exception (or return) of the finally body itself replaces the pending outcome -/
 theorem finally_own_exception (env : Env) (fuel : Nat) (body fin : List Blk) (st st2 : St) (x : Exc)
+    (hb : (renderJoined env fuel body st).1 ≠ .oom)
     (hf : renderJoined env fuel fin (renderJoined env fuel body st).2 = (.raise x, st2)) :
     renderBlk env (fuel + 1) (.tryFin body fin) st = (.raise x, st2) := by
   unfold renderBlk
   simp only
-  generalize renderJoined env fuel body st = r1 at hf
+  generalize renderJoined env fuel body st = r1 at hf hb
   obtain ⟨r, st1⟩ := r1
-  simp only at hf ⊢
-  rw [hf]
+  simp only at hf hb ⊢
+  cases r with
+  | oom => exact (hb rfl).elim
+  | ok p => simp only [hf]
+  | raise e => simp only [hf]
+  | ret v => simp only [hf]
 
 /-! #### dtml-raise -/
 
 /-- **dtml-raise raises the named / computed class with the rendered body as its message** -/
-theorem raise_raises (env : Env) (fuel : Nat) (cls : Text) (ce : Option Expr) (body : List Blk)
-    (st st1 : St) (p : Piece)
-    (h : renderJoined env fuel body (raiseClass env fuel cls ce st).2 = (.ok p, st1)) :
-    renderBlk env (fuel + 1) (.raise_ cls ce body) st =
-      (.raise ⟨(raiseClass env fuel cls ce st).1, ustr (valOfPiece p)⟩, st1) := by
+theorem raise_raises (env : Env) (fuel : Nat) (cls c : Text) (ce : Option Expr) (body : List Blk)
+    (st st0 st1 : St) (p : Piece)
+    (hc : raiseClass env fuel cls ce st = (some c, st0))
+    (h : renderJoined env fuel body st0 = (.ok p, st1)) :
+    renderBlk env (fuel + 1) (.raise_ cls ce body) st = (.raise ⟨c, ustr (valOfPiece p)⟩, st1) := by
   unfold renderBlk
-  simp only [h]
+  simp only [hc, h]
 
 /-- by name: a class of the table is raised as such, any other name gives RuntimeError -/
 theorem raise_class_by_name (env : Env) (fuel : Nat) (cls : Text) (st : St) :
     raiseClass env (fuel + 1) cls none st =
-      (if (env.classes.lookup cls).isSome then cls else "RuntimeError".toList, st) := by
+      (some (if (env.classes.lookup cls).isSome then cls else "RuntimeError".toList), st) := by
   unfold raiseClass
   rfl
 
 /-- by expression: the class the expression evaluates to -/
 theorem raise_class_by_expr (env : Env) (fuel : Nat) (cls c m : Text) (e : Expr) (st st' : St)
     (h : evalExpr env fuel e st = (.ok (.exc c m), st')) :
-    raiseClass env (fuel + 1) cls (some e) st = (c, st') := by
+    raiseClass env (fuel + 1) cls (some e) st = (some c, st') := by
   unfold raiseClass
   simp only [h]
 
